@@ -67,15 +67,28 @@ def classify_writes(tree, fi):
         for n in ast.walk(loop):
             if isinstance(n, ast.Assign):
                 for t in n.targets:
-                    if isinstance(t, ast.Name):
-                        local_names.add(t.id)
+                    for x in ast.walk(t):
+                        if isinstance(x, ast.Name) and isinstance(x.ctx, ast.Store):
+                            local_names.add(x.id)
             if isinstance(n, ast.For) and isinstance(n.target, ast.Name):
                 local_names.add(n.target.id)
         # values derived only from the induction variable inside the loop are NOT private indices: only v itself is
         for n in ast.walk(loop):
             targets = []
             if isinstance(n, ast.Assign):
-                targets = [(t, n, False) for t in n.targets]
+                # a, b = f(...) stores into each element of the target list
+                flat = []
+                for t in n.targets:
+                    stack = [t]
+                    while stack:
+                        x = stack.pop()
+                        if isinstance(x, (ast.Tuple, ast.List)):
+                            stack.extend(x.elts)
+                        elif isinstance(x, ast.Starred):
+                            stack.append(x.value)
+                        else:
+                            flat.append(x)
+                targets = [(t, n, False) for t in flat]
             elif isinstance(n, ast.AugAssign):
                 targets = [(n.target, n, True)]
             for t, st, aug in targets:
